@@ -499,6 +499,12 @@ class _Pass:
                     res = mk_constref(self.load(st, res))
             else:
                 proj = None
+            if callee == 'core::option::Option::<T>::take' and args and args[0][0] in ('ref', 'param') and not proj:
+                # take(): yields the old value and leaves None behind
+                r0 = self.as_ptr(args[0])
+                res = self.load(st, r0)
+                self.store(st, r0, ('agg', 'core::option::Option', 'None', ()))
+                proj = 'take'
             if res is None:
                 res = ('call', callee, args, tuple(t.get('gargs', [])), site)
             argvals = tuple(self.load(st, a) if a[0] == 'ref' else (a[1] if a[0] == 'constref' else a) for a in args)
